@@ -15,8 +15,9 @@ LEVEL_NOTE = ("Trusted: Lean kernel; the hand-written model as far as correspond
               "from toDouble_err: |toDouble x - x| <= |x| / 2^53 for every rational x; binary64 overflow/subnormals are outside the model); "
               "compile/scale commutation is a theorem for exact factors and exact literals under the hypothesis that no inlining "
               "test sits on the edge of its float tolerance (compile_scale_commute; elab_scale_commute unconditionally; the unconditional statement is "
-              "refuted in the kernel, compile_scale_commute_Full_false - a recorded finding); Markdown prose and whole documents are checked by the oracle.")
-LEAN_MODULES = ["RecipeGrid.Props.C03", "RecipeGrid.Props.C03b", "RecipeGrid.Props.C03c"]
+              "refuted in the kernel, compile_scale_commute_Full_false - a recorded finding; compile_scale_commute_offEdge replaces the hypothesis by a decidable "
+              "condition in exact rational arithmetic: no two written quantities differ by the 1e-9 tolerance to within a relative 2^-21); Markdown prose and whole documents are checked by the oracle.")
+LEAN_MODULES = ["RecipeGrid.Props.C03", "RecipeGrid.Props.C03b", "RecipeGrid.Props.C03c", "RecipeGrid.Props.C03d"]
 SOURCES = ["recipe_grid/recipe.py", "recipe_grid/scaled_value_string.py", "recipe_grid/markdown.py", "recipe_grid/static_site/standalone_page.py"]
 RULE = ("multi-block recipes built with the real constructors (references to earlier sub recipes incl. multi-output, nested sub recipes, every amount form, "
         "numbers int/Fraction/float in names) and compiled descriptions, times factors from positive ints, Fractions and floats; non-trivial = at least "
@@ -208,13 +209,14 @@ def quantity_values(d):
 
 
 def at_tolerance_edge(d):
-    """some two written quantities differ, in exact arithmetic, by a relative amount within 1e-15 of the 1e-9 tolerance"""
+    """some two written quantities differ, in exact arithmetic, by a relative amount within 1e-9 * 2^-21 of the 1e-9 tolerance: the
+    negation of the hypothesis OffEdge of the theorem RG.C03.compile_scale_commute_offEdge (here without unit conversion)"""
     vs = sorted(set(quantity_values(d)))
     tol = Fraction(1, 10 ** 9)
     for i, x in enumerate(vs):
         for y in vs[i + 1:]:
             m = max(abs(x), abs(y))
-            if m and abs(abs(x - y) / m - tol) <= Fraction(1, 10 ** 15):
+            if m and abs(abs(x - y) / m - tol) <= tol / 2 ** 21:
                 return True
     return False
 
